@@ -243,6 +243,11 @@ func main() {
 			workers = n
 		}
 	}
+	if wd, err := os.Getwd(); err == nil {
+		if _, err := os.Stat(filepath.Join(wd, "sim", "rt")); err == nil {
+			verif = wd // /verif itself, or a snapshot of it started by `vp run`
+		}
+	}
 	if v := os.Getenv("GSIM_REPO"); v != "" {
 		repo = v // developer aid: check another tree (sensitivity runs); never used by registered commands
 	}
